@@ -17,18 +17,18 @@ theorem sleepUntil_pos {now d : Int} (h : 0 < d) : sleepUntil now d = now + d :=
 theorem sleepUntil_max (now d : Int) : sleepUntil now d = max now (now + d) := by
   unfold sleepUntil; split <;> omega
 
-/-- the error-delay sleep ends at `max(patched, ended + d)` -/
-theorem sleep_stateDelay (ended now d : Int) :
-    sleepUntil now (stateDelay ended now (some d)) = max now (ended + d) := by
-  by_cases h : ended + d - now ≤ 0
-  · have e : stateDelay ended now (some d) = 0 := by simp [stateDelay, h]
+/-- the error-delay sleep ends at `max(now, delayed)` -/
+theorem sleep_delay (h : HState) (now d : Int) (hd : h.delayed = some d) :
+    sleepUntil now (h.delay now) = max now d := by
+  by_cases hc : d - now ≤ 0
+  · have e : h.delay now = 0 := by simp [HState.delay, hd, hc]
     rw [e]; unfold sleepUntil; simp; omega
-  · have e : stateDelay ended now (some d) = ended + d - now := by simp [stateDelay, h]
-    rw [e]; unfold sleepUntil; rw [if_neg h]; omega
+  · have e : h.delay now = d - now := by simp [HState.delay, hd, hc]
+    rw [e]; unfold sleepUntil; rw [if_neg hc]; omega
 
-theorem sleep_stateDelay_none (ended now : Int) :
-    sleepUntil now (stateDelay ended now none) = now := by
-  simp [sleepUntil, stateDelay]
+theorem sleep_delay_none (h : HState) (now : Int) (hd : h.delayed = none) :
+    sleepUntil now (h.delay now) = now := by
+  simp [sleepUntil, HState.delay, hd]
 
 /-! ### the idle gate -/
 
@@ -101,7 +101,6 @@ theorem Poll.seen {idle : Int} {view : View} {start p p' : Int} (h : Poll idle v
 
 /-! ### soundness of the executable functions -/
 
-def Extends (pv : PView) (view : View) : Prop := ∀ t v, pv t = some v → view t = v
 
 theorem idleWaitN_sound {idle : Int} {pv : PView} {view : View} (hx : Extends pv view) :
     ∀ (n : Nat) (t t' : Int), idleWaitN idle pv n t = .start t' → IdleWait idle view t t' := by
@@ -149,22 +148,18 @@ theorem pollN_sound {idle : Int} {pv : PView} {view : View} {start : Int} (hx : 
         cases e
         exact .exit (by rw [hv']; exact hn)
 
-theorem nextStartN_sound {cfg : Cfg} {pv : PView} {view : View} (hx : Extends pv view) {n : Nat} {r : Run}
-    {t' : Int} (e : nextStartN cfg pv n r = .start t') : Next cfg view r t' := by
+theorem nextStartN_sound {cfg : Cfg} {pv : PView} {view : View} (hx : Extends pv view) {n : Nat} {h' : HState}
+    {it : Iter} {t' : Int} (e : nextStartN cfg pv n h' it = .start t') : Next cfg view h' it t' := by
   unfold nextStartN at e
   unfold Next
   split at e
-  · split at e <;> cases e
-  · rename_i hnf
-    refine ⟨hnf, ?_⟩
-    split at e
-    · exact gateN_sound hx e
-    · split at e
-      · rename_i p hp
-        exact ⟨p, pollN_sound hx n _ _ hp, gateN_sound hx e⟩
-      · rename_i other hne
-        exact (hne _ e).elim
-    · cases e
+  · exact gateN_sound hx e
+  · split at e
+    · rename_i p hp
+      exact ⟨p, pollN_sound hx n _ _ hp, gateN_sound hx e⟩
+    · rename_i other hne
+      exact (hne _ e).elim
+  · cases e
 
 theorem firstStartN_sound {cfg : Cfg} {pv : PView} {view : View} (hx : Extends pv view) {n : Nat}
     {spawn t' : Int} (e : firstStartN cfg pv n spawn = .start t') : First cfg view spawn t' :=
@@ -176,7 +171,7 @@ theorem extends_total (view : View) : Extends (fun t => some (view t)) view := b
 /-! ### one step -/
 
 /-- every post-run sleep is entered at `patched` and never ends earlier -/
-theorem wake_at_ge {cfg : Cfg} {r : Run} {w : Int} (h : wake cfg r = .at w) : r.patched ≤ w := by
+theorem wake_at_ge {cfg : Cfg} {h' : HState} {it : Iter} {w : Int} (h : wake cfg h' it = .at w) : it.patched ≤ w := by
   unfold wake at h
   split at h
   · cases h; exact sleepUntil_ge _ _
@@ -184,10 +179,9 @@ theorem wake_at_ge {cfg : Cfg} {r : Run} {w : Int} (h : wake cfg r = .at w) : r.
     · split at h <;> (cases h; exact sleepUntil_ge _ _)
     · split at h <;> cases h
 
-theorem Next.ge_patched {cfg : Cfg} {view : View} {r : Run} {t' : Int} (h : Next cfg view r t') :
-    r.patched ≤ t' := by
+theorem Next.ge_patched {cfg : Cfg} {view : View} {h' : HState} {it : Iter} {t' : Int}
+    (h : Next cfg view h' it t') : it.patched ≤ t' := by
   unfold Next at h
-  replace h := h.2
   split at h
   · rename_i w hw
     have := wake_at_ge hw
@@ -199,52 +193,243 @@ theorem Next.ge_patched {cfg : Cfg} {view : View} {r : Run} {t' : Int} (h : Next
     omega
   · exact h.elim
 
-theorem Next.idle_ok {cfg : Cfg} {view : View} {r : Run} {t' idle : Int} (hi : cfg.idle = some idle)
-    (h : Next cfg view r t') : idle ≤ t' - view t' := by
+theorem Next.idle_ok {cfg : Cfg} {view : View} {h' : HState} {it : Iter} {t' idle : Int} (hi : cfg.idle = some idle)
+    (h : Next cfg view h' it t') : idle ≤ t' - view t' := by
   unfold Next at h
-  replace h := h.2
   split at h
   · exact Gate.idle_ok hi h
   · obtain ⟨p, _, hg⟩ := h
     exact Gate.idle_ok hi hg
   · exact h.elim
 
-/-! ### lifting to run sequences -/
+/-- a retrying state is not re-entered before its `delayed` instant -/
+theorem Next.ge_delayed {cfg : Cfg} {view : View} {h' : HState} {it : Iter} {t' d : Int}
+    (hf : h'.finished = false) (hd : h'.delayed = some d) (h : Next cfg view h' it t') : d ≤ t' := by
+  unfold Next at h
+  have hw : wake cfg h' it = .at (max it.patched d) := by
+    unfold wake; simp [hf, sleep_delay h' it.patched d hd]
+  rw [hw] at h
+  have := Gate.ge h
+  omega
 
-/-- a fact about consecutive runs that follows from one step holds for every consecutive pair -/
-theorem Chain.consecutive {cfg : Cfg} {view : View} {P : Run → Run → Prop}
-    (hP : ∀ r r', r.WF → r'.WF → Next cfg view r r'.start → r'.attempt = nextAttempt cfg r → P r r') :
-    ∀ (rs : List Run) (r : Run), r.WF → Chain cfg view r rs →
-      ∀ (n : Nat) (a b : Run), (r :: rs)[n]? = some a → (r :: rs)[n + 1]? = some b → P a b := by
-  intro rs
-  induction rs with
-  | nil => intro r _ _ n a b _ hb; simp at hb
-  | cons r' rs ih =>
-    intro r hwf hc n a b ha hb
+/-! ### the carried state -/
+
+theorem atTop_of_failure {h : HState} (hf : h.failure = true) : h.atTop = h := by
+  simp [HState.atTop, hf]
+
+theorem atTop_finished_iff {h : HState} : h.atTop.finished = true ↔ h.failure = true := by
+  unfold HState.atTop
+  cases hs : h.success <;> cases hf : h.failure <;> simp [HState.finished, HState.fresh, hs, hf]
+
+theorem atTop_failure {h : HState} : h.atTop.failure = h.failure := by
+  unfold HState.atTop
+  cases hs : h.success <;> cases hf : h.failure <;> simp [HState.finished, HState.fresh, hs, hf]
+
+theorem not_awakened_of_failure {h : HState} (hf : h.failure = true) (now : Int) : h.atTop.awakened now = false := by
+  rw [atTop_of_failure hf]; simp [HState.awakened, HState.finished, hf]
+
+/-- the state machine keeps a failure: once failed, every later state is the same failed state -/
+theorem step_of_failure {cfg : Cfg} {h : HState} {it : Iter} (hf : h.failure = true) (hok : it.ok h) :
+    step cfg h it = h := by
+  have hna := not_awakened_of_failure hf it.start
+  have hres : it.res = none := by
+    have := hok.2.2.1; rw [hna] at this
+    cases hr : it.res <;> simp [hr] at this ⊢
+  simp [step, hres, atTop_of_failure hf]
+
+/-! ### lifting to sequences -/
+
+theorem stateAt_zero (cfg : Cfg) (its : List Iter) : stateAt cfg its 0 = HState.fresh := by
+  simp [stateAt]
+
+theorem stateAt_succ {cfg : Cfg} {its : List Iter} {n : Nat} {a : Iter} (ha : its[n]? = some a) :
+    stateAt cfg its (n + 1) = step cfg (stateAt cfg its n) a := by
+  unfold stateAt
+  have hn : n < its.length := by
+    rcases Nat.lt_or_ge n its.length with h | h
+    · exact h
+    · rw [List.getElem?_eq_none h] at ha; cases ha
+  have hget : its[n] = a := by
+    have := List.getElem?_eq_getElem hn; rw [this] at ha; exact Option.some.inj ha
+  rw [List.take_succ_eq_append_getElem hn, List.foldl_append, hget]
+  rfl
+
+theorem Chain.step_at {cfg : Cfg} {view : View} :
+    ∀ (rest : List Iter) (h : HState) (it : Iter), Chain cfg view h it rest →
+      ∀ (n : Nat) (a b : Iter), (it :: rest)[n]? = some a → (it :: rest)[n + 1]? = some b →
+        Next cfg view (step cfg (((it :: rest).take n).foldl (step cfg) h) a) a b.start ∧
+        b.ok (step cfg (((it :: rest).take n).foldl (step cfg) h) a) := by
+  intro rest
+  induction rest with
+  | nil => intro h it _ n a b _ hb; simp at hb
+  | cons it' rest ih =>
+    intro h it hc n a b ha hb
     cases hc with
-    | cons hn hwf' hat hc' =>
+    | cons hn hok hc' =>
       cases n with
       | zero =>
         simp at ha hb
         subst ha; subst hb
-        exact hP _ _ hwf hwf' hn hat
+        exact ⟨hn, hok⟩
       | succ n =>
         simp only [List.getElem?_cons_succ] at ha hb
-        exact ih r' hwf' hc' n a b ha hb
+        have := ih (step cfg h it) it' hc' n a b ha hb
+        simpa [List.take_succ_cons, List.foldl_cons] using this
 
-/-- a fact about a run's start that follows from the step leading to it holds for every later run -/
-theorem Chain.forall_tail {cfg : Cfg} {view : View} {Q : Run → Prop}
-    (hQ : ∀ r r', Next cfg view r r'.start → Q r') :
-    ∀ (rs : List Run) (r : Run), Chain cfg view r rs → ∀ x ∈ rs, Q x := by
-  intro rs
-  induction rs with
-  | nil => intro r _ x hx; cases hx
-  | cons r' rs ih =>
-    intro r hc x hx
-    cases hc with
-    | cons hn _ _ hc' =>
-      cases hx with
-      | head => exact hQ _ _ hn
-      | tail _ hx' => exact ih r' hc' x hx'
+/-- consecutive iterations of a sequence: the step relation and the record's guarantees, with the carried state -/
+theorem Sched.step_at {cfg : Cfg} {view : View} {spawn : Int} {its : List Iter} (h : Sched cfg view spawn its)
+    {n : Nat} {a b : Iter} (ha : its[n]? = some a) (hb : its[n + 1]? = some b) :
+    Next cfg view (stateAt cfg its (n + 1)) a b.start ∧ b.ok (stateAt cfg its (n + 1)) := by
+  cases its with
+  | nil => simp at ha
+  | cons it rest =>
+    obtain ⟨_, _, hc⟩ := h
+    have := Chain.step_at rest HState.fresh it hc n a b ha hb
+    rw [stateAt_succ ha]
+    exact this
+
+theorem Sched.ok_at {cfg : Cfg} {view : View} {spawn : Int} {its : List Iter} (h : Sched cfg view spawn its) :
+    ∀ (n : Nat) (a : Iter), its[n]? = some a → a.ok (stateAt cfg its n) := by
+  intro n
+  cases n with
+  | zero =>
+    intro a ha
+    cases its with
+    | nil => simp at ha
+    | cons it rest =>
+      simp at ha; subst ha
+      rw [stateAt_zero]; exact h.2.1
+  | succ n =>
+    intro b hb
+    have hn : n < its.length := by
+      rcases Nat.lt_or_ge (n + 1) its.length with h' | h'
+      · omega
+      · rw [List.getElem?_eq_none h'] at hb; cases hb
+    exact (Sched.step_at h (List.getElem?_eq_getElem hn) hb).2
+
+/-- the start of every iteration but the first is a `Next` of its predecessor -/
+theorem Sched.start_cases {cfg : Cfg} {view : View} {spawn : Int} {its : List Iter} (h : Sched cfg view spawn its)
+    (n : Nat) (b : Iter) (hb : its[n]? = some b) :
+    (n = 0 ∧ First cfg view spawn b.start) ∨
+    (∃ m a, n = m + 1 ∧ its[m]? = some a ∧ Next cfg view (stateAt cfg its n) a b.start) := by
+  cases n with
+  | zero =>
+    left
+    cases its with
+    | nil => simp at hb
+    | cons it rest => simp at hb; subst hb; exact ⟨rfl, h.1⟩
+  | succ m =>
+    right
+    have hm : m < its.length := by
+      rcases Nat.lt_or_ge (m + 1) its.length with h' | h'
+      · omega
+      · rw [List.getElem?_eq_none h'] at hb; cases hb
+    exact ⟨m, its[m], rfl, List.getElem?_eq_getElem hm, (Sched.step_at h (List.getElem?_eq_getElem hm) hb).1⟩
+
+theorem chainCheck_sound {cfg : Cfg} {pv : PView} {view : View} (hx : Extends pv view) {n : Nat} :
+    ∀ (rest : List Iter) (h : HState) (it : Iter), chainCheck cfg pv n h it rest = true → Chain cfg view h it rest := by
+  intro rest
+  induction rest with
+  | nil => intro h it _; exact .nil h it
+  | cons it' rest ih =>
+    intro h it hc
+    simp only [chainCheck, Bool.and_eq_true, decide_eq_true_eq] at hc
+    exact .cons (nextStartN_sound hx hc.1.1) hc.1.2 (ih _ _ hc.2)
+
+theorem schedCheck_sound {cfg : Cfg} {pv : PView} {view : View} (hx : Extends pv view) {n : Nat} {spawn : Int}
+    {its : List Iter} (hc : schedCheck cfg pv n spawn its = true) : Sched cfg view spawn its := by
+  cases its with
+  | nil => trivial
+  | cons it rest =>
+    simp only [schedCheck, Bool.and_eq_true, decide_eq_true_eq] at hc
+    exact ⟨firstStartN_sound hx hc.1.1, hc.1.2, chainCheck_sound hx rest _ _ hc.2⟩
+
+/-- the invariant behind "always invoked unless failed": a finished state carries no `delayed`, and a
+    retrying state is not re-entered before its `delayed` instant -/
+theorem Sched.ready {cfg : Cfg} {view : View} {spawn : Int} {its : List Iter} (h : Sched cfg view spawn its) :
+    ∀ (n : Nat) (a : Iter), its[n]? = some a →
+      ((stateAt cfg its n).finished = true → (stateAt cfg its n).delayed = none) ∧
+      (∀ d, (stateAt cfg its n).delayed = some d → d ≤ a.start) := by
+  intro n
+  induction n with
+  | zero =>
+    intro a _
+    rw [stateAt_zero]
+    exact ⟨fun _ => rfl, fun d hd => by simp [HState.fresh] at hd⟩
+  | succ n ih =>
+    intro b hb
+    have hn : n < its.length := by
+      rcases Nat.lt_or_ge (n + 1) its.length with h' | h'
+      · omega
+      · rw [List.getElem?_eq_none h'] at hb; cases hb
+    have ha := List.getElem?_eq_getElem hn
+    obtain ⟨i1, i2⟩ := ih its[n] ha
+    obtain ⟨hnext, _⟩ := Sched.step_at h ha hb
+    have hoka := Sched.ok_at h n its[n] ha
+    rw [stateAt_succ ha] at hnext ⊢
+    generalize stateAt cfg its n = hs at i1 i2 hnext hoka
+    -- the carried state at the top of the loop keeps both facts
+    have t1 : hs.atTop.finished = true → hs.atTop.delayed = none := by
+      unfold HState.atTop; split
+      · intro _; rfl
+      · exact i1
+    have t2 : ∀ d, hs.atTop.delayed = some d → d ≤ its[n].start := by
+      unfold HState.atTop; split
+      · intro d hd; simp [HState.fresh] at hd
+      · exact i2
+    have hge := hnext.ge_patched
+    have hwf1 := hoka.1
+    have hwf2 := hoka.2.1
+    cases hres : its[n].res with
+    | none =>
+      have hst : step cfg hs its[n] = hs.atTop := by simp [step, hres]
+      rw [hst]
+      exact ⟨t1, fun d hd => by have := t2 d hd; omega⟩
+    | some r =>
+      have hst : step cfg hs its[n] = hs.atTop.withOutcome its[n].ended (classify cfg hs.atTop.retries r) := by
+        simp [step, hres]
+      rw [hst] at hnext ⊢
+      cases ho : classify cfg hs.atTop.retries r with
+      | done => exact ⟨fun _ => rfl, fun d hd => by simp [HState.withOutcome] at hd⟩
+      | failed => exact ⟨fun _ => rfl, fun d hd => by simp [HState.withOutcome] at hd⟩
+      | retry d0 =>
+        rw [ho] at hnext
+        refine ⟨fun hf => by simp [HState.withOutcome, HState.finished] at hf, fun d hd => ?_⟩
+        exact Next.ge_delayed (by simp [HState.withOutcome, HState.finished]) hd hnext
+
+/-! ### `idle_reset_time` from the event history -/
+
+theorem viewOf_foldl_ge (evs : List Ev) (t : Int) :
+    ∀ acc : Int, acc ≤ evs.foldl (fun acc e => if e.registered && decide (e.t ≤ t) && decide (acc ≤ e.t) then e.t else acc) acc := by
+  induction evs with
+  | nil => intro acc; exact Int.le_refl _
+  | cons e es ih =>
+    intro acc
+    simp only [List.foldl_cons]
+    split
+    · rename_i hc
+      simp only [Bool.and_eq_true, decide_eq_true_eq] at hc
+      have := ih e.t
+      omega
+    · exact ih acc
+
+/-- a registered event processed by `t` is not newer than what is read at `t` -/
+theorem viewOf_ge_registered (created : Int) (evs : List Ev) (t : Int) (e : Ev) (he : e ∈ evs)
+    (hr : e.registered = true) (ht : e.t ≤ t) : e.t ≤ viewOf created evs t := by
+  unfold viewOf
+  generalize created = acc
+  induction evs generalizing acc with
+  | nil => cases he
+  | cons x xs ih =>
+    simp only [List.foldl_cons]
+    cases he with
+    | head =>
+      split
+      · exact viewOf_foldl_ge xs t _
+      · rename_i hc
+        simp only [Bool.and_eq_true, decide_eq_true_eq, hr, ht, true_and] at hc
+        have := viewOf_foldl_ge xs t acc
+        omega
+    | tail _ he' => exact ih he' _
 
 end Kopf.C10
